@@ -68,6 +68,7 @@ def run_traces(ctx, name, drv_args, timeout=1500, sub="req"):
 def report(ctx, v, reqinfo, own, sample_events=None, tag=None, own_tags=()):
     """Turns the `bad` records of a validated trace into verdicts for property `own`."""
     others = []
+    seen_violation = False
     for b in v["bad"]:
         info = reqinfo.get(b["r"], {})
         key = "%s:%s:%s:%s" % (b["p"], slug(b["what"]), info.get("op", "?"), info.get("class", "?"))
@@ -85,8 +86,18 @@ def report(ctx, v, reqinfo, own, sample_events=None, tag=None, own_tags=()):
                 ctxev = ctxev[-400:]
         rec = {"violation": b, "request": info, "events": ctxev}
         if b["p"] == "HARNESS":
+            # the bookkeeping of the harness cannot follow a trace after a property was violated in it (a frame
+            # delivered to the wrong request makes that request look answered, ...): records after the first violation
+            # are not judged; without an earlier violation the inconsistency is the machinery's
+            if seen_violation:
+                ctx.notes.setdefault("harness_records_after_a_violation", 0)
+                ctx.notes["harness_records_after_a_violation"] += 1
+                break
             raise core.Inconclusive("trace inconsistent with the harness model: %s" % rec)
-        if b["p"] == own or b["p"] in own_tags:
+        seen_violation = True
+        # C02 also owns a second frame on a stream: whatever request the client has outstanding there by then (none, or its
+        # next one), the frame is not the answer to it
+        if b["p"] == own or b["p"] in own_tags or (own == "C02" and b["what"].startswith("second response for one request")):
             ctx.violation(key, "%s (request %s)" % (b["what"], info), replay=rec)
         else:
             others.append({"key": key, "what": b["what"]})
